@@ -23,7 +23,7 @@ CONFIG = {
 }
 REQUIRED_CLASSES = {"quick": ["heterogeneous", "custom-accepted", "n-or-sz-broken", "non-spin-half-site", "symm-default"],
                     "thorough": ["heterogeneous", "custom-accepted", "n-or-sz-broken", "non-spin-half-site", "symm-default", "product-candidate"]}
-SYMM_KINDS = ("N", "Sz", "site", "orbital", "linear", "single", "product", "hoplike")
+SYMM_KINDS = ("N", "Sz", "site", "orbital", "linear", "single", "packed", "product", "hoplike")
 
 
 @st.composite
